@@ -15,11 +15,15 @@ SINKSETS = [(), ('ack',), ('html',), ('xml',), ('ack', 'html'), ('ack', 'xml'), 
 
 # ----- reference side: which refusals are documented -----------------------------------------------
 def isa_malformed(text):
-    """the first 106 characters are not a well-formed ISA, or a later ISA has not 16 elements"""
+    """the first 106 characters are not a well-formed ISA (16 elements, delimiters distinct and not used inside
+    the header's own fields), or a later ISA has not 16 elements"""
     if not ref.header_ok(text):
         return True
     seg, ele, sub = ref.delims(text)
     if len({seg, ele, sub}) < 3:
+        return True
+    h = text[:106]
+    if len(h[:105].split(ele)) != 17 or seg in h[:105] or sub in h[:104] or seg.isalnum() or ele.isalnum():
         return True
     for piece in text.split(seg):
         p = piece.lstrip('\r\n').lstrip(' \r\n')
@@ -27,6 +31,16 @@ def isa_malformed(text):
             if len(p.split(ele)) != 17:
                 return True
     return False
+
+
+def value(parts, i, sub):
+    """element i as the library reports it: components joined, trailing empty components dropped"""
+    if len(parts) <= i:
+        return None
+    c = parts[i].split(sub)
+    while len(c) > 1 and c[-1] == '':
+        c.pop()
+    return sub.join(c)
 
 
 def map_keys_absent(text):
@@ -41,12 +55,12 @@ def map_keys_absent(text):
         if p[0] == 'ISA' and len(p) > 12:
             icvn = p[12]
         elif p[0] == 'GS':
-            fic = p[1] if len(p) > 1 else None
-            vriic = p[8] if len(p) > 8 else None
+            fic = value(p, 1, sub)
+            vriic = value(p, 8, sub)
             if not any(e[0] == icvn and e[1] == vriic and e[2] == fic for e in idx):
                 return True
         elif p[0] == 'BHT' and vriic in ('004010X094', '004010X094A1'):
-            tspc = p[2].split(sub)[0] if len(p) > 2 else None
+            tspc = value(p, 2, sub)
             if not any(e[0] == icvn and e[1] == vriic and e[2] == fic and e[3] == tspc for e in idx):
                 return True
     return False
@@ -57,7 +71,7 @@ def classify(exc, text):
     name = type(exc).__name__
     if name == 'X12Error' and isa_malformed(text):
         return None
-    if name == 'EngineError' and 'Map not found' in str(exc) and map_keys_absent(text):
+    if name == 'EngineError' and 'Map not found' in str(exc) and (map_keys_absent(text) or isa_malformed(text)):
         return None
     return '%s@%s' % (name, core.where(exc))
 
